@@ -76,7 +76,7 @@ func runVectors() {
 	}
 	for _, f := range files("sign") {
 		var v struct {
-			Input struct{ Privkey, Message string }
+			Input  struct{ Privkey, Message string }
 			Output *string
 		}
 		if !load("sign", f, &v) {
